@@ -4,13 +4,13 @@ from ..core import eq, band, bor, bnot, ite, implies
 from .common import *
 
 META = dict(
-    functions=['burst_fwd.BurstForwarder.forward_msg', 'data_msg.TxMsg.trans', 'data_msg.Msg.ubit2sbit', 'fake_trx.FakeTRX.handle_data_msg',
+    functions=['ctrl_if_trx.CTRLInterfaceTRX.parse_cmd (SETPOWER, SETTA, POWERON) and fake_trx.FakeTRX.ctrl_cmd_handler (FAKE_TOA) as the source of the settings in the history jobs', 'burst_fwd.BurstForwarder.forward_msg', 'data_msg.TxMsg.trans', 'data_msg.Msg.ubit2sbit', 'fake_trx.FakeTRX.handle_data_msg',
                'fake_trx.FakeTRX._handle_data_msg_v1', 'fake_trx.FakeTRX.toa256/rssi/ci/tx_power (properties)', 'fake_trx.FakeTRX.sim_burst_drop',
                'transceiver.Transceiver.handle_data_msg', 'transceiver.Transceiver.get_tx_freq/get_rx_freq', 'data_if.DATAInterface.send_msg',
                'data_msg.RxMsg.gen_msg (+validate)', 'gsm_shared.TrainingSeqGMSK.pick', 'data_msg.Modulation.pick_by_bl',
                'rand_burst_gen.RandBurstGen.gen_nb/gen_sb/gen_ab'],
     bounds=dict(all='2 transceivers tuned to each other; burst length 148 or 444 with every bit symbolic; FN, TN, attenuation symbolic over their full ranges; sender power/attenuation in [-300,300], TA in [-64,320]; '
-                    'recipient bases in [-40000,40000], thresholds in [0,40000], each random draw a symbolic value of its documented range; assumed: the resulting RSSI/ToA256/C-I lie in protocol range (else C13 forbids sending); header version 0/1 on either side; fake RSSI on/off'),
+                    'recipient bases in [-40000,40000], thresholds in [0,40000], each random draw a symbolic value of its documented range; assumed: the resulting RSSI/ToA256/C-I lie in protocol range (else C13 forbids sending); header version 0/1 on either side; fake RSSI on/off; history jobs: three bursts (FN, TN, attenuation octet 0..10 symbolic) with SETPOWER 0..50 / SETTA 0..63 / FAKE_TOA base and delta in [-1000,1000] given over the real TRXC path before the first and again before the second burst, power-on over TRXC or set directly, recipient version 0/1'),
     stubs=['fake socket module', 'logging', 'random.randint -> nondeterministic value in [a,b]', 'struct/bytearray/array/translate models'],
     outside=['TSC detection for bursts that contain more than one training sequence at once (ambiguous; the property speaks of the sequence actually present)', 'non-GMSK training sequences (the code reports 0/0)'],
     assumptions=['training sequences pinned in vf/checks/common.py (compared with the repository table at run time)', 'TRXD layout of appendix C'],
@@ -28,6 +28,9 @@ def jobs(tier, seed):
     for sver in (0, 1):
         out.append(('tsc.s%d' % sver, 'h_fwd', dict(sver=sver, dver=1, blen=148, fake_rssi=False, mode='tsc')))
     out.append(('tseq.table', 'h_tseq_table', {}))
+    for dver in (0, 1):
+        for via in (False, True):
+            out.append(('history.d%d.%s' % (dver, 'trxc-poweron' if via else 'running'), 'h_fwd_hist', dict(dver=dver, via_trxc_power=via)))
     for (bt, tsc) in sorted(TSEQ):
         out.append(('gen.%s%d' % (bt, tsc), 'h_gen', dict(bt=bt, tsc=tsc)))
     for bt in ('NB', 'SB', 'AB'):
@@ -132,6 +135,47 @@ def h_fwd(ctx, sver, dver, blen, fake_rssi, mode='meta'):
             ctx.check('softbit[%d]' % i, eq(o[hdr + i], bits[i] * 254))
         if dver == 0:
             ctx.check('pad0', eq(o[hdr + blen], 0)); ctx.check('pad1', eq(o[hdr + blen + 1], 0))
+
+
+def h_fwd_hist(ctx, dver, via_trxc_power):
+    """metadata follows the settings in force when the burst is sent: SETPOWER / SETTA (sender) and FAKE_TOA (recipient) given over the real
+    TRXC path before the first burst and again between two bursts; both datagrams are checked against the reference formulas"""
+    T = env.load(ctx, 'gsm_shared', 'data_msg', 'udp_link', 'data_if', 'ctrl_if', 'ctrl_if_trx', 'trx_list', 'transceiver', 'burst_fwd', 'fake_pm', 'clck_gen', 'app_common', 'fake_trx')
+    net, log, rnd = env.std_env(ctx, T)
+    with env.symbolic(ctx):
+        T.ctrl_if.time = env.FakeTime()
+        cg = T.clck_gen.CLCKGen([]); cg.start = lambda: None; cg.stop = lambda: None
+        src = mk_trx(ctx, T, 'SRC', 5700, ver=0, clck_gen=cg); dst = mk_trx(ctx, T, 'DST', 6700, ver=dver, clck_gen=cg)
+        src._tx_freq = dst._rx_freq = 935000000; src._rx_freq = dst._tx_freq = 890000000
+        fwd = T.burst_fwd.BurstForwarder([src, dst])
+        def cmd(trx, verb, *a):
+            with ctx.no_raise('%s:no-exception' % verb):
+                rsp = trxc_roundtrip(ctx, trx, trxc_cmd(ctx, verb, *a))
+            check_rsp(ctx, verb, rsp, verb, 0, list(a))
+        def burst(tag, att, ta, base):
+            m = T.data_msg.TxMsg(fn=ctx.int(tag + '.fn', 0, HYPER - 1), tn=ctx.int(tag + '.tn', 0, 7), ver=0)
+            m.pwr = ctx.int(tag + '.pwr', 0, 10); m.burst = mk_bytearray(ctx, [0] * 148)
+            n0 = len(dst.data_if.sock.sent)
+            with ctx.no_raise(tag + ':forward:no-exception'):
+                fwd.forward_msg(src, m)
+            sent = datagrams(dst.data_if.sock)[n0:]
+            ctx.check(tag + ':one-datagram', len(sent) == 1, n=len(sent))
+            if len(sent) != 1: return
+            o, remote = sent[0]
+            ctx.check(tag + ':fn', eq(((o[1] * 256 + o[2]) * 256 + o[3]) * 256 + o[4], m.fn))
+            ctx.check(tag + ':rssi=nominal-att-pwr-pathloss', eq(-o[5], 50 - att - m.pwr - 110))
+            ctx.check(tag + ':toa256=base-256*ta', eq(from_be16s(o[6], o[7]), base - 256 * ta))
+        a1 = ctx.int('att1', 0, 50); t1 = ctx.int('ta1', 0, 63); b1 = ctx.int('toa_base1', -1000, 1000)
+        cmd(src, 'SETPOWER', a1); cmd(src, 'SETTA', t1); cmd(dst, 'FAKE_TOA', b1, 0)
+        if via_trxc_power:
+            cmd(src, 'POWERON'); cmd(dst, 'POWERON')
+        else:
+            src.running = dst.running = True
+        burst('burst1', a1, t1, b1)
+        a2 = ctx.int('att2', 0, 50); t2 = ctx.int('ta2', 0, 63); d2 = ctx.int('toa_delta2', -1000, 1000)
+        cmd(src, 'SETPOWER', a2); cmd(src, 'SETTA', t2); cmd(dst, 'FAKE_TOA', d2)
+        burst('burst2', a2, t2, b1 + d2)
+        burst('burst3', a2, t2, b1 + d2)
 
 
 def h_gen(ctx, bt, tsc=None, light=False):
